@@ -4,7 +4,7 @@
 # Usage: tools/seeded_run.sh [id ...]        (never leaves /repo modified; refuses to start on a dirty /repo)
 cd /verif || exit 2
 if [ -n "$(git -C /repo status --porcelain)" ]; then echo "/repo is not clean"; exit 2; fi
-ids=("$@"); [ ${#ids[@]} -eq 0 ] && ids=($(ls seeded))
+ids=("$@"); [ ${#ids[@]} -eq 0 ] && ids=($(ls -d seeded/*/ | xargs -n1 basename))
 for id in "${ids[@]}"; do
   patch=/verif/seeded/$id/patch.diff; [ -f /verif/seeded/$id/patch.rebased.diff ] && patch=/verif/seeded/$id/patch.rebased.diff
   prop=$(python3 -c "import json;print(json.load(open('/verif/seeded/$id/meta.json'))['property'])")
